@@ -1143,6 +1143,9 @@ func (self *LockManager) ProcessLockData(command *protocol.LockCommand, lock *Lo
 					i += 4
 					continue
 				}
+				if valueLen > len(self.currentData.data)-i-4 {
+					break
+				}
 				values = append(values, self.currentData.data[i+4:i+4+valueLen])
 				i += valueLen + 4
 			}
@@ -1327,6 +1330,9 @@ func (self *LockManager) ProcessRecoverLockData(lock *Lock) {
 					i += 4
 					continue
 				}
+				if valueLen > len(self.currentData.data)-i-4 {
+					break
+				}
 				value := self.currentData.data[i+4 : i+4+valueLen]
 				values = append(values, value)
 				i += valueLen + 4
@@ -1367,6 +1373,9 @@ func (self *LockManager) ProcessRecoverLockData(lock *Lock) {
 				if valueLen == 0 {
 					i += 4
 					continue
+				}
+				if valueLen > len(self.currentData.data)-i-4 {
+					break
 				}
 				values = append(values, self.currentData.data[i+4:i+4+valueLen])
 				i += valueLen + 4
